@@ -83,14 +83,16 @@ def stepRec (s : St) (r : Array String) : St :=
   | .panic msg => s.fail (.differ "model-panic" (msg.replace " " "_"))
   | .hang => s.fail (.differ "model-hang" "-")
   | .ok m =>
-  let ins := s.ins.toList
   if key == "len" then
     let n := (r.getD 1 "0").toNat?.getD 0
     let nb := (r.getD 2 "0").toNat?.getD 0
-    if !specLen ins n then s.fail (.specfalse "C56:len:wrong-count" s!"len={n} inserted={ins.length}")
+    -- `specLen ins n` is `n == ins.length`; the array size avoids rebuilding the list after every op
+    if !(n == s.ins.size) then s.fail (.specfalse "C56:len:wrong-count" s!"len={n} inserted={s.ins.size}")
     else if m.len != n then s.fail (.differ "len" s!"model={m.len} impl={n}")
     else { s with maxBuckets := max s.maxBuckets nb }
-  else if key == "values" then
+  else
+  let ins := s.ins.toList
+  if key == "values" then
     let out := parseVals r 1
     if !specValues ins out then
       let sig := if ins.any (fun v => !out.contains v) then "C56:values:entry-missing" else "C56:values:entry-extra-or-repeated"
